@@ -1,6 +1,7 @@
 import PoseVerif.Driver.Codec
 import PoseVerif.Model.Cache
 import PoseVerif.Model.Concurrent
+import PoseVerif.Model.JS
 /-!
 `posedriver`: one JSON request per input line, one JSON answer per output line.
 Runs the executable definitions of the model (the same ones the theorems are about).
@@ -135,6 +136,17 @@ def handle (j : Json) : R Json := do
       match readBytes b cache w with
       | some (p, _) => pure (Json.mkObj [("ok", Json.bool true), ("pose", poseToJson p)])
       | none => pure failJ
+  | "js_parse" =>
+    let b ← getHex j "hex"
+    let cls := match (runBR rdHeaderRaw b 0) with
+      | some (h, _) => jsVersionClass h.version
+      | none => .other
+    let clsName := match cls with | .v00 => "v00" | .v01 => "v01" | .v02 => "v02" | .other => "other"
+    match jsParse jsVersionClass b with
+    | some (h, e, body) => pure (Json.mkObj [("ok", Json.bool true), ("class", Json.str clsName), ("header", headerToJson h), ("headerLength", natJ e),
+        ("fps", fpsToJson body.fps), ("frames", natJ body.frames), ("people", natJ body.people), ("points", natJ body.points), ("dims", natJ body.dims),
+        ("data", f32Arr body.data), ("conf", f32Arr body.conf)])
+    | none => pure (Json.mkObj [("ok", Json.bool false), ("class", Json.str clsName)])
   | "history" => runHistory j
   | "schedule" => runSchedule j
   | _ => throw s!"unknown op {op}"
